@@ -4,6 +4,7 @@ M = "testtools.matchers._higherorder:"
 
 
 def register(R):
+    from specs.a_common import matcher
     R.fields_of("MatchesAll", matchers="tuple[AMatcher]", first_only="bool")
     R.fields_of("MatchesAny", matchers="tuple[AMatcher]")
     R.fields_of("Not", matcher="AMatcher")
@@ -17,39 +18,39 @@ def register(R):
     R.fields_of("MismatchDecorator", original="any")
     R.fields_of("PostfixedMismatch", annotation="any", mismatch="any")
 
-    R.contract(M + "MatchesAll.match", props=["C06"], params={"matchee": "any"}, pure=True,
+    matcher(R, M + "MatchesAll.match", params={"matchee": "any"},
                ensures=["(result is None) == all(holds(m, matchee) for m in self.matchers)"],
                loops={0: dict(invariant=[
                    "not allocated(results)",
                    "(len(results) == 0) == all(holds(_seq[j], matchee) for j in range(_i))",
                ])})
-    R.contract(M + "MatchesAny.match", props=["C06"], params={"matchee": "any"}, pure=True,
+    matcher(R, M + "MatchesAny.match", params={"matchee": "any"},
                ensures=["(result is None) == any(holds(m, matchee) for m in self.matchers)"],
                loops={0: dict(invariant=[
                    "not allocated(results)",
                    "all(not holds(_seq[j], matchee) for j in range(_i))",
                ])})
-    R.contract(M + "Not.match", props=["C06"], params={"other": "any"}, pure=True,
+    matcher(R, M + "Not.match", params={"other": "any"},
                ensures=["(result is None) == (not holds(self.matcher, other))"])
-    R.contract(M + "Annotate.match", props=["C06"], params={"other": "any"}, pure=True,
+    matcher(R, M + "Annotate.match", params={"other": "any"},
                ensures=["(result is None) == holds(self.matcher, other)"])
-    R.contract(M + "AllMatch.match", props=["C06"], params={"values": "list"}, pure=True,
+    matcher(R, M + "AllMatch.match", params={"values": "list"},
                ensures=["(result is None) == all(holds(self.matcher, v) for v in values)"],
                loops={0: dict(invariant=[
                    "not allocated(mismatches)",
                    "(len(mismatches) == 0) == all(holds(self.matcher, _seq[j]) for j in range(_i))",
                ])})
-    R.contract(M + "AnyMatch.match", props=["C06"], params={"values": "list"}, pure=True,
+    matcher(R, M + "AnyMatch.match", params={"values": "list"},
                ensures=["(result is None) == any(holds(self.matcher, v) for v in values)"],
                loops={0: dict(invariant=[
                    "not allocated(mismatches)",
                    "all(not holds(self.matcher, _seq[j]) for j in range(_i))",
                ])})
     # AfterPreprocessing: the inner verdict on f(x); exceptions of the preprocessor propagate
-    R.contract(M + "AfterPreprocessing.match", props=["C06"], params={"value": "any"}, pure=True,
+    matcher(R, M + "AfterPreprocessing.match", params={"value": "any"},
                exsures=["True"],
                ensures=["(result is None) == holds(self.matcher, fn_result(self.preprocessor, [value]))"])
-    R.contract(M + "AfterPreprocessing._str_preprocessor", params={}, pure=True, returns="str", inline=True)
-    R.contract(M + "MatchesPredicate.match", props=["C06"], params={"x": "any"}, pure=True,
+    R.contract(M + "AfterPreprocessing._str_preprocessor", params={}, returns="str", inline=True)
+    matcher(R, M + "MatchesPredicate.match", params={"x": "any"},
                exsures=["True"],
                ensures=["(result is None) == truthy(fn_result(self.predicate, [x]))"])
